@@ -171,10 +171,15 @@ class TrajectoryConstraintsRemover(engines.engine.Engine, CompilerMixin):
         C = []
         for c in new_problem.trajectory_constraints:
             new_c = expression_quantifier_remover.remove_quantifiers(c, new_problem)
-            if new_c.is_and():
-                C.extend(new_c.args)
-            else:
-                C.append(new_c)
+            for conjunct in new_c.args if new_c.is_and() else [new_c]:
+                # a constraint over a constant condition is stored simplified to a Boolean constant
+                if conjunct.is_true():
+                    continue
+                if conjunct.is_false():
+                    raise UPProblemDefinitionError(
+                        "PROBLEM NOT SOLVABLE: a trajectory constraint can never be satisfied"
+                    )
+                C.append(conjunct)
         # create a list that contains trajectory_constraints
         # trajectory_constraints can contain quantifiers and need to be remove
         relevancy_dict = self._build_relevancy_dict(env, C)
